@@ -253,6 +253,9 @@ def run_c15(ctx):
     # conformance only; the thorough tier model-checks both (and the 17-thread chains crossing 8 and 16)
     _run(ctx, "bp_grow_nc", n // 2 if q else n, sim, tsos=T)
     _run(ctx, "bp_grow", n // 2 if q else n, 0 if q else sim, tsos=T, mc=not q)
+    # "signals cannot interrupt registration": the handler (with its own read-side section) delivered at every scheduling point of a thread's
+    # first rcu_read_lock(), i.e. also between the TLS test and the signal mask (the model side of this scenario is checked in C19)
+    _sigat_sweep(ctx, "bp_sig", "r1", 34 if q else 40, 1 if q else 5)
     if not q:
         _run(ctx, "bp_exit", n, sim)
         _run(ctx, "bp_2r", n, sim)
